@@ -437,7 +437,7 @@ def shrink(case, fails):
 
 
 def run(ctx):
-    n = {'quick': 12000, 'thorough': 150000}[ctx.tier]
+    n = {'quick': 12000, 'thorough': 450000}[ctx.tier]
     if ctx.thorough:
         explore_cases(ctx, lambda r: gen(r, 25, 9), check, n // 3, 'deep', shrink)
     explore_cases(ctx, gen, check, n, 'remap', shrink)
